@@ -90,10 +90,12 @@ func recOf(v vTx, tx *chain.Transaction) txRec {
 }
 
 type hdrRec struct {
-	Height  int64 `json:"height"`
-	Ts      int64 `json:"ts"`
-	TooLate bool  `json:"toolate"`
-	RootOK  bool  `json:"rootok"`
+	Height   int64 `json:"height"`
+	Ts       int64 `json:"ts"`
+	TooLate  bool  `json:"toolate"`
+	RootOK   bool  `json:"rootok"`
+	PDelta   int64 `json:"pdelta"`   // block timestamp minus the PARENT BLOCK's header timestamp (clamped to +-2^30)
+	PGenesis bool  `json:"pgenesis"` // the parent is the genesis block built by chain.NewGenesisCommit
 }
 
 type blockLine struct {
@@ -323,7 +325,7 @@ func TestVerifChainExec(t *testing.T) {
 				if oc.Err != "" {
 					oc.Results, oc.Prices, oc.Consumed, oc.Post = []txResult{}, oc.Expected, []int64{0, 0, 0, 0, 0}, st
 				}
-				rec.add(blockLine{Ev: "block", Bid: b, Rep: rep, Advance: rep == len(cfgs)-1, Hdr: hdrRec{st.Height + 1, ts, false, true},
+				rec.add(blockLine{Ev: "block", Bid: b, Rep: rep, Advance: rep == len(cfgs)-1, Hdr: hdrRec{st.Height + 1, ts, false, true, ts - st.Timestamp, false},
 					Txs: recs, Prices: oc.Expected, Cfg: cfg, Out: oc})
 				last = oc
 			}
